@@ -1,3 +1,4 @@
+import Sparrow.Proofs.ShapeLemmas
 import Sparrow.Proofs.CheckSound
 /-
   C18 — Inconsistent simulation states are rejected, not simulated.
@@ -72,3 +73,37 @@ example : isValueError (checkGen (convert { demo with speed_of_sound := some 0 }
 example : isValueError (checkGen (convert { demo with energy_exchange_etc := some [10, 1, 2, 29] })) = true := by decide +kernel
 
 end Sparrow.Props.C18
+
+namespace Sparrow.Props.C18.Shape
+open Sparrow.Shape Sparrow Sparrow.Generated
+
+/-- **Main theorem.** For every state reachable from `from_polygon` by any history of successful
+    calls: saving and restoring is accepted by the generated `check()` iff the state is neither
+    partially set (D13) nor stale (D15). -/
+theorem reachable_accepted_iff (W nv P : Nat) (ids : List Int) (hg : GeomOK W P ids)
+    (ops : List Op) (s : St) (h : run (fresh W nv P ids) ops = some s) :
+    accepted s = true ↔ (DirsComplete s ∧ Fresh s) :=
+  Sparrow.Shape.reachable_accepted_iff W nv P ids hg ops s h
+
+/-- The regular pipeline — materials on all walls, attenuation, bake, source, exchange — can be
+    saved and restored after each of its stages, whatever the sizes and parameters. -/
+theorem regular_pipeline_accepted (W nv P : Nat) (ids : List Int) (hg : GeomOK W P ids) (hW : 0 < W)
+    (nIn nOut : Nat) (f : Freq) (nVis : Nat) (c dt dur : Rat) (hc : 0 < c) (hdt : 0 < dt) (hdur : 0 < dur)
+    (order : Int) (k : Nat) :
+    ∃ s, run (fresh W nv P ids)
+        ([Op.setBrdf (List.range W) nIn nOut f, Op.setAtt f, Op.bake nVis, Op.init,
+          Op.exchange c dt dur order true].take k) = some s ∧ accepted s = true :=
+  Sparrow.Shape.regular_pipeline_accepted W nv P ids hg hW nIn nOut f nVis c dt dur hc hdt hdur order k
+
+/-- The same without any material: the defaults installed by `init_source_energy` are consistent. -/
+theorem default_pipeline_accepted (W nv P : Nat) (ids : List Int) (hg : GeomOK W P ids) (hW : 0 < W)
+    (nVis : Nat) (c dt dur : Rat) (hc : 0 < c) (hdt : 0 < dt) (hdur : 0 < dur) (order : Int) (k : Nat) :
+    ∃ s, run (fresh W nv P ids)
+        ([Op.bake nVis, Op.init, Op.exchange c dt dur order true].take k) = some s ∧ accepted s = true :=
+  Sparrow.Shape.default_pipeline_accepted W nv P ids hg hW nVis c dt dur hc hdt hdur order k
+
+/-- A save/restore never changes what is stored. -/
+theorem saveRestore_id (s t : St) (h : step s Op.saveRestore = some t) : t = s :=
+  Sparrow.Shape.saveRestore_id s t h
+
+end Sparrow.Props.C18.Shape
